@@ -1019,3 +1019,26 @@ mod tests {
         assert_eq!(s, seq([I("X"), I("x")]));
     }
 }
+
+#[cfg(feature = "verif-hooks")]
+impl InnerLiterals {
+    /// The extracted sequence (verification hook).
+    pub(crate) fn verif_seq(&self) -> &Seq {
+        &self.seq
+    }
+}
+
+/// Verification hook: the stages of `Extractor::extract_untagged`.
+#[cfg(feature = "verif-hooks")]
+pub(crate) fn verif_extract_stages(
+    hir: &Hir,
+) -> crate::verif::InnerLiteralStages {
+    let ex = Extractor::new();
+    let mut tseq = ex.extract(hir);
+    let extracted = tseq.seq.clone();
+    let prefix = tseq.prefix;
+    tseq.seq.optimize_for_prefix_by_preference();
+    let optimized = tseq.seq.clone();
+    let untagged = ex.extract_untagged(hir);
+    crate::verif::InnerLiteralStages { extracted, prefix, optimized, untagged }
+}
